@@ -42,6 +42,7 @@ type c09APIEntry struct {
 	AL      int    `json:"al"`
 	NL      int    `json:"nl"`
 	Forge   int    `json:"forge"`
+	Nonce   string `json:"nonce"` // hex; empty: the fixed filler
 }
 
 var (
@@ -158,6 +159,10 @@ func TestVerif_C09_APIChild(t *testing.T) {
 			t.Fatalf("AEAD type %T cannot be copied into the long-lived object %T", fresh, slot)
 		}
 		c09DeepCopyInto(reflect.ValueOf(slot), reflect.ValueOf(fresh), map[uintptr]bool{})
+		c09APIFill(c09APINonce[:], 77)
+		if nb, _ := hex.DecodeString(e.Nonce); len(nb) == e.NL && e.NL > 0 {
+			copy(c09APINonce[:], nb)
+		}
 		nonce, aad := c09APINonce[:e.NL], c09APIAad[:e.AL]
 		c09APIFill(c09APISrc[:e.PL], e.TextC)
 		if e.Op == "seal" {
@@ -230,6 +235,22 @@ func TestVerif_C09_APITrace(t *testing.T) {
 		keys := []string{hex.EncodeToString(gen.RandBytes(r, 16)), hex.EncodeToString(gen.RandBytes(r, 16)), "00000000000000000000000000000000", "ffffffffffffffffffffffffffffffff"}
 		keys = append(keys, special...)
 		keys = append(keys, hex.EncodeToString(gen.RandBytes(r, 16)))
+		// groups with 16-byte nonces: sometimes the (shared, public) nonce is SOLVED for the first key so that the pre-counter block
+		// J0 = GHASH_H(nonce) — a function of the hash key — is all zero / all ones / 0^96||1 under that key and ordinary under the others
+		if base.NL == 16 && gen.Bool(t, "solved-j0") {
+			kb, _ := hex.DecodeString(keys[0])
+			j0 := make([]byte, 16)
+			switch gen.Pick(t, "j0", "zero", "zero", "ones", "0^96||1") {
+			case "ones":
+				for i := range j0 {
+					j0[i] = 0xff
+				}
+			case "0^96||1":
+				j0[15] = 1
+			}
+			base.Nonce = hex.EncodeToString(gcmref.SolveNonce16(sm4ref.New(kb), j0))
+			base.Group += fmt.Sprintf(" nonce solved: J0=%x under the first key", j0)
+		}
 		for i, k := range keys {
 			e := base
 			e.Key = k
